@@ -293,6 +293,9 @@ func checkPair(c *mon.Case, a, b any, how string, viaBuiltins bool) {
 		// all other entries are untouched
 		if pass == 0 && n0 <= 64 {
 			for i, k := range others {
+				if k == nil || vals.Equal(k, a) || vals.Equal(k, b) || vals.Equal(a, k) || vals.Equal(b, k) {
+					continue // was never inserted as an "other" entry
+				}
 				if got, ok := mxy.Index(k); ok && got != any(i) {
 					if _, isInt := got.(int); isInt {
 						continue // a later duplicate of the same other key
